@@ -404,11 +404,22 @@ def run(idx: ProgramIndex, rep: Report, tier: str, selftest: bool = True):
                 if not (lt or gt):
                     return False
                 small, big = (l_, r_) if lt == pol else (r_, l_)  # (a < b) true / (a >= b) false: a is the smaller side
-                return R.residual_norm in reads(small) and "tolerance" in reads(big)
+                return R.residual_norm in through_defs(small) and "tolerance" in through_defs(big)
             parts = _cmp_parts(e)
             if parts is not None and pol:
-                return R.residual_norm in reads(parts[0]) and "tolerance" in reads(parts[1])
+                return R.residual_norm in through_defs(parts[0]) and "tolerance" in through_defs(parts[1])
             return False
+
+        def through_defs(e: ast.AST) -> Set[str]:
+            """names the value depends on, through the definitions that reach the controlled node (mean_norm = norm.mean())"""
+            names = set(reads(e))
+            try:
+                if _rd_x[0] is None:
+                    _rd_x[0] = ReachingDefs(cg, reads=value_reads)
+                names |= _rd_x[0].closure(nid, names)
+            except Exception:
+                pass
+            return names
 
         for t in controlling_tests(cfg, nid):
             if not _inside(loop_ast, t.ast):
@@ -573,6 +584,63 @@ def run(idx: ProgramIndex, rep: Report, tier: str, selftest: bool = True):
                                      "linear_cg can return without a NumericalWarning on a path where neither the tolerance was reached "
                                      f"nor the iteration budget was zero (conditions on the path: {'; '.join(unjustified) or 'none'}): an "
                                      "unconverged solve is returned silently", cg0.loc(warn_tests[0].ast)), sample)
+
+    # ---------------------------------------------------------------- L
+    # the tridiagonal matrix that is returned is the buffer the recurrence filled: between the end of the iteration and the
+    # return it is only sliced / permuted / copied, never re-computed (added to, scaled, jittered) and never written in place
+    rep.rule("C08.L", "the returned tridiagonal matrix is the recorded buffer, only re-laid-out after the iteration", floor=1)
+    LAYOUT = {"permute", "contiguous", "transpose", "clone", "view", "reshape", "narrow", "squeeze", "unsqueeze", "movedim", "to",
+              "detach", "expand", "flatten", "unflatten", "select", "type", "double", "float"}
+    rd_l = ReachingDefs(cg, reads=value_reads)
+
+    def layout_sources(e: ast.AST, nid: int, depth: int = 0) -> Set[str]:
+        if depth > 12:
+            return {"?"}
+        if isinstance(e, ast.Subscript):
+            return layout_sources(e.value, nid, depth + 1)
+        if isinstance(e, ast.Attribute) and e.attr in ("mT", "T", "mH"):
+            return layout_sources(e.value, nid, depth + 1)
+        if isinstance(e, ast.Call) and isinstance(e.func, ast.Attribute) and e.func.attr in LAYOUT and not (dotted(e.func) or "").startswith("torch."):
+            return layout_sources(e.func.value, nid, depth + 1)
+        if isinstance(e, ast.Call) and dotted(e.func) in ("torch.zeros", "torch.empty", "torch.zeros_like", "torch.empty_like"):
+            return {"buffer"}
+        if isinstance(e, ast.IfExp):
+            return layout_sources(e.body, nid, depth + 1) | layout_sources(e.orelse, nid, depth + 1)
+        if isinstance(e, ast.Name):
+            out: Set[str] = set()
+            for d, i_ in rd_l.IN.get(nid, {}).get(e.id, ()):
+                st = rd_l.cfg.nodes[d].ast
+                name_, _r, strong = rd_l.defs[d][i_]
+                if strong and isinstance(st, ast.Assign) and len(st.targets) == 1 and isinstance(st.targets[0], ast.Name):
+                    out |= layout_sources(st.value, d, depth + 1)
+                elif not strong:
+                    # an in-place write / out= / subscript store: the recurrence inside the loop, anything else after it
+                    out.add("buffer" if _inside(loop_ast, st) or not any(_inside(s_, st) for s_ in R.post) else "written-after:" + short(st, 50))
+                else:
+                    out.add("?")
+            return out or {"?"}
+        return {"computed:" + short(e, 50)}
+
+    n_l = 0
+    for r in R.returns:
+        if not (isinstance(r.value, ast.Tuple) and len(r.value.elts) >= 2):
+            continue
+        nid_r = rd_l.node_of(r)
+        if nid_r is None:
+            continue
+        n_l += 1
+        src = layout_sources(r.value.elts[1], nid_r)
+        bad_src = sorted(x for x in src if x.startswith(("computed:", "written-after:")))
+        sample = {"returned": short(r.value.elts[1], 60), "sources": sorted(src)}
+        if bad_src:
+            rep.bad("C08.L", Finding(PROP, "C08.L", F, "returned tridiagonal matrix re-computed after the iteration",
+                                     f"the tridiagonal matrix returned by linear_cg is not the recorded buffer re-laid-out: {bad_src[0]}. "
+                                     "The Lanczos coefficients are perturbed after the recurrence: the eigenvalues of T are no longer the Ritz "
+                                     "values of the operator and the log-determinant quadrature is biased", cg0.loc(r)), sample)
+        else:
+            rep.ok("C08.L", sample)
+    if "n_tridiag" in cg0.params() and n_l == 0:
+        rep.error("linear_cg takes n_tridiag but no return hands back a (solution, tridiagonal matrices) tuple")
 
     # ---------------------------------------------------------------- D
     rep.rule("C08.D", "in-loop divisions by iteration quantities are guarded by a clamp of the denominator", floor=3)
